@@ -399,8 +399,14 @@ def drive(sub, variant, ctx, n_examples, seed_int, shrink_budget_s):
             if isinstance(e, (KeyboardInterrupt, SystemExit)):
                 raise
             if "case" not in failure:
+                import time as _time
                 import traceback
 
+                if _time.time() > ctx.deadline and "Flaky" in type(e).__name__:
+                    # past the wall-clock budget the machine stops drawing steps, which Hypothesis reports as inconsistent data
+                    # generation: the run is over and inconclusive for what was not executed, nothing more
+                    ctx.notes.append("wall-clock budget reached inside the state machine: remaining histories skipped (inconclusive)")
+                    return
                 raise HarnessError("".join(traceback.format_exception(type(e), e, e.__traceback__)))
             v = Violation(failure["v"].kind + "|nondeterministic", failure["v"].msg)
             path = save_replay(ctx.prop, sub.name, failure["case"], v, variant)
